@@ -56,7 +56,7 @@ def gen_case(rng, tier, idx):
     calls = []
     for c in range(int(gen.pick(rng, [1, 1, 2, 3]))):
         meas, _ = measure.gen_measurements(rng, attrs, shape, 1, 4, N=N, sigmas=sig, max_cells=64,
-                                           qkinds=['identity', 'identity', 'dense', 'prefix', 'sparse', 'tall', 'total_row'])
+                                           qkinds=['identity', 'identity', 'dense', 'prefix', 'sparse', 'tall', 'total_row', 'hier'])
         if conflict:
             meas = []
             for a_, sg in zip(attrs[:2], [float(gen.pick(rng, [0.1, 1.0])), float(gen.pick(rng, [1.0, 10.0]))]):
